@@ -3052,6 +3052,19 @@ func (p *Posix) PutObject(ctx context.Context, po s3response.PutObjectInput) (s3
 		}
 	}
 
+	// Set object tagging: with the other attributes, before the object
+	// becomes visible, so that it never exists without its tags
+	if tags != nil {
+		b, err := json.Marshal(tags)
+		if err != nil {
+			return s3response.PutObjectOutput{}, fmt.Errorf("marshal tags: %w", err)
+		}
+		err = p.meta.StoreAttribute(f.File(), *po.Bucket, *po.Key, tagHdr, b)
+		if err != nil {
+			return s3response.PutObjectOutput{}, fmt.Errorf("set tags: %w", err)
+		}
+	}
+
 	err = f.link()
 	if errors.Is(err, syscall.EEXIST) {
 		return s3response.PutObjectOutput{
@@ -3063,20 +3076,6 @@ func (p *Posix) PutObject(ctx context.Context, po s3response.PutObjectInput) (s3
 		return s3response.PutObjectOutput{}, s3err.GetAPIError(s3err.ErrExistingObjectIsDirectory)
 	}
 	verifhook.At("put.linked", *po.Bucket, *po.Key)
-
-	// Set object tagging
-	if tags != nil {
-		err := p.PutObjectTagging(ctx, *po.Bucket, *po.Key, tags)
-		if errors.Is(err, fs.ErrNotExist) {
-			return s3response.PutObjectOutput{
-				ETag:      etag,
-				VersionID: versionID,
-			}, nil
-		}
-		if err != nil {
-			return s3response.PutObjectOutput{}, err
-		}
-	}
 
 	// Set object legal hold
 	if po.ObjectLockLegalHoldStatus == types.ObjectLockLegalHoldStatusOn {
